@@ -87,8 +87,6 @@ _constant_exprs: dict[_Constant, Callable[[], gmp.mpfr]] = {
     _Constant.LN2 : gmp.const_log2,
     _Constant.LN10 : lambda: gmp.log(10),
     _Constant.PI : gmp.const_pi,
-    _Constant.PI_2 : lambda: gmp.const_pi() / 2, # division by 2 is exact
-    _Constant.PI_4 : lambda: gmp.const_pi() / 4, # division by 4 is exact
     _Constant.M_1_PI : lambda: 1 / gmp.const_pi(), # TODO: may be inaccurate
     _Constant.M_2_PI : lambda: 2 / gmp.const_pi(), # TODO: may be inaccurate
     _Constant.M_2_SQRTPI : lambda: 2 / gmp.sqrt(gmp.const_pi()), # TODO: may be inaccurate
@@ -97,11 +95,26 @@ _constant_exprs: dict[_Constant, Callable[[], gmp.mpfr]] = {
 }
 
 
+# constants that are an exact power-of-two multiple of another constant:
+# `(base, shift)` stands for `base * 2 ** shift`
+_scaled_constants: dict[_Constant, tuple[_Constant, int]] = {
+    _Constant.PI_2 : (_Constant.PI, -1),
+    _Constant.PI_4 : (_Constant.PI, -2),
+}
+
+
 def _mpfr_constant(x: _Constant, *, prec: int | None = None, n: int | None = None):
     """
     Computes constant `x` such that it may be safely re-rounded
     accurately to `prec` digits of precision.
     """
+    if x in _scaled_constants:
+        # scale the round-to-odd value of the base constant itself: dividing
+        # inside MPFR is exact, so it would report the result as exact and
+        # the sticky bit of the base constant would be lost
+        base, shift = _scaled_constants[x]
+        r = _mpfr_constant(base, prec=prec, n=None if n is None else n - shift)
+        return Float(x=r, exp=r.exp + shift)
     try:
         fn = _constant_exprs[x]
         return mpfr_call(fn, (), prec=prec, n=n)
